@@ -10,6 +10,14 @@
     inv  <formulaShipped:0|1> <signShipped:0|1> <fmt> <lin> <m> <b> <k1> <k2> <rat>
                                                   ->  ok <int> <rawQ> | py:<Error>
     tables                                        ->  linMask and the generated lin table
+    hist <fs> <ss> <fmt> <lin> <m> <b> <k1> <k2> <step>*   -> the answers of the conversion steps, joined by ` ; `
+                                                      the history model (Sensor.runHistory) of ONE record object;
+                                                      <step> ::= S <fmt|lin|m|b|k1|k2> <int> | O | D <fmt> <lin> <m> <b> <k1> <k2>
+                                                               | F <raw|n> (answer as `fwd`) | I <rat> (answer as `inv`)
+    encfull <45 ints> <n,n,…|->                   ->  ok <hex> | bad-wf     the SPECIFICATION's encoder of a full sensor
+                                                      record (Spec.Sdr.FullSensor.encode, table 43-1; ints in structure
+                                                      order as for drv_c16 `spec full`, the id string as 8-bit ASCII
+                                                      codes): the bytes the record histories of C17 decode
 
   <rat> ::= <int>/<nat>;  <res> ::= <rat> | py:<Error> | ? (transcendental: the harness applies
   Python's own function of that TAG to <arg>; tag 11 = `math.pow(x, 1.0/3)` answers py:ValueError for a
@@ -19,6 +27,7 @@
 import PyIpmi.Base.Proto
 import PyIpmi.Model.Sensor
 import PyIpmi.Spec.Sensor
+import PyIpmi.Spec.SdrFormat
 import PyIpmi.Gen.SdrTables
 open PyIpmi PyIpmi.Proto
 
@@ -73,9 +82,96 @@ def specOne (r : Sensor.Rec) (raw : Option Nat) : String :=
 def parseRaw (s : String) : Option (Option Nat) :=
   if s == "n" then some none else s.toNat?.map some
 
+def natOf? (z : Int) : Option Nat := if 0 ≤ z then some z.toNat else none
+
+/-- The specification's encoder of a full sensor record (table 43-1), fields in structure order. -/
+def encFull (a : List Int) (ids : List Nat) : Option String :=
+  match a with
+  | rid :: ver :: oid :: ch :: lun :: num :: eid :: einst :: ini :: cap :: st :: et :: am :: dm ::
+    rm :: fmt :: rate :: mod :: pct :: bu :: mu :: lin :: m :: tol :: b :: acc :: accx :: dir ::
+    rexp :: bexp :: af :: nom :: nmax :: nmin :: smax :: smin :: unr :: ucr :: unc :: lnr :: lcr ::
+    lnc :: ph :: nh :: oem :: [] => do
+    let r : Spec.Sdr.FullSensor := {
+      recordId := ← natOf? rid, version := ← natOf? ver, ownerId := ← natOf? oid, channel := ← natOf? ch,
+      ownerLun := ← natOf? lun, number := ← natOf? num, entityId := ← natOf? eid,
+      entityInstance := ← natOf? einst, initBits := ← natOf? ini, capabilities := ← natOf? cap,
+      sensorType := ← natOf? st, eventType := ← natOf? et, assertionMask := ← natOf? am,
+      deassertionMask := ← natOf? dm, readingMask := ← natOf? rm, analogFormat := ← natOf? fmt,
+      rateUnit := ← natOf? rate, modifierUnit := ← natOf? mod, percentage := ← natOf? pct,
+      baseUnit := ← natOf? bu, modUnit := ← natOf? mu, linearization := ← natOf? lin, m := m,
+      tolerance := ← natOf? tol, b := b, accuracy := ← natOf? acc, accuracyExp := ← natOf? accx,
+      sensorDirection := ← natOf? dir, rExp := rexp, bExp := bexp, analogFlags := ← natOf? af,
+      nominal := ← natOf? nom, normalMax := ← natOf? nmax, normalMin := ← natOf? nmin,
+      sensorMax := ← natOf? smax, sensorMin := ← natOf? smin, unr := ← natOf? unr, ucr := ← natOf? ucr,
+      unc := ← natOf? unc, lnr := ← natOf? lnr, lcr := ← natOf? lcr, lnc := ← natOf? lnc,
+      posHysteresis := ← natOf? ph, negHysteresis := ← natOf? nh, oem := ← natOf? oem,
+      idString := .ascii8 ids }
+    pure (if r.wf then s!"ok {toHex r.encode}" else "bad-wf")
+  | _ => none
+
+def parseField : String → Option Sensor.Field
+  | "fmt" => some .fmt | "lin" => some .lin | "m" => some .m | "b" => some .b
+  | "k1" => some .k1 | "k2" => some .k2 | _ => none
+
+def parseSteps : List String → Option (List Sensor.Step)
+  | [] => some []
+  | "S" :: f :: v :: t => do
+    let f ← parseField f
+    let v ← parseInt v
+    let rest ← parseSteps t
+    pure (.set f v :: rest)
+  | "O" :: t => do
+    let rest ← parseSteps t
+    pure (.other :: rest)
+  | "D" :: fmt :: lin :: m :: b :: k1 :: k2 :: t => do
+    let r ← mkRec fmt lin m b k1 k2
+    let rest ← parseSteps t
+    pure (.redecode r :: rest)
+  | "F" :: raw :: t => do
+    let x ← parseRaw raw
+    let rest ← parseSteps t
+    pure (.forward x :: rest)
+  | "I" :: q :: t => do
+    let y ← parseRat q
+    let rest ← parseSteps t
+    pure (.inverse y :: rest)
+  | _ => none
+
+/-- The outputs of `Sensor.runHistory`, rendered like the answers of `fwd` / `inv`: the result comes from the
+history model, the tag / argument / pre-rounding value shown with it from the attributes of that moment. -/
+def showHist (v : Sensor.Variant) : Sensor.Rec → List Sensor.Step → List Sensor.Out → List String
+  | c, .set f x :: t, outs => showHist v (c.set f x) t outs
+  | c, .other :: t, outs => showHist v c t outs
+  | _, .redecode c' :: t, outs => showHist v c' t outs
+  | c, .forward raw :: t, .value o :: outs =>
+    (match raw, o with
+     | some x, some oc =>
+       (match Sensor.linTag c.lin with
+        | none => oc.tag
+        | some tg => s!"ok {tg} {showRat (Sensor.arg c x)} {showRes oc}")
+     | _, _ => "none") :: showHist v c t outs
+  | c, .inverse y :: t, .raw o :: outs =>
+    (match o with
+     | .ok z => s!"ok {z} {showRat (Sensor.rawQ v c y)}"
+     | e => e.tag) :: showHist v c t outs
+  | _, _, _ => []
+
 def handleC17 (line : String) : String :=
   match tokens line with
   | ["ping"] => "pong"
+  | "hist" :: fs :: ss :: fmt :: lin :: m :: b :: k1 :: k2 :: steps =>
+    match mkRec fmt lin m b k1 k2, parseSteps steps with
+    | some r, some st =>
+      let v : Sensor.Variant := ⟨fs == "1", ss == "1", false⟩
+      " ; ".intercalate (showHist v r st (Sensor.runHistory opaqueFns v r st))
+    | _, _ => "bad-op"
+  | "encfull" :: rest =>
+    match rest.reverse with
+    | ids :: revInts =>
+      match revInts.reverse.mapM parseInt, (if ids == "-" then some [] else parseNatList ids) with
+      | some a, some l => (encFull a l).getD "bad-op"
+      | _, _ => "bad-op"
+    | [] => "bad-op"
   | ["tables"] => s!"{Gen.SdrTables.linMask} " ++
       ",".intercalate (Gen.SdrTables.lin.map fun p => s!"{p.1}:{p.2}")
   | ["fwd", fmt, lin, m, b, k1, k2, raw] =>
